@@ -415,6 +415,9 @@ impl Property for C04 {
                     }
                 };
                 let shape_tag = if crosses_compressed_mount_boundary(&flat, rq.method, path) { "compression-across-mount-boundary" } else { "plain" };
+                // the recorded finding misorders the fangs of a merged node and mis-scopes them for misses; it never loses or
+                // adds a fang on the way to a handler that runs — so the key says whether one ran
+                let shape_tag = if shape_tag == "plain" { "plain".to_string() } else { format!("{shape_tag}:{}", if o.handlers().is_empty() { "no-handler-ran" } else { "handler-ran" }) };
                 obs.fail(format!("{shape_tag}:{dev}"), format!("{} {} early={:?}: expected {first_expectation}; observed status {} trace {:?}", rq.method.as_str(), rq.target, rq.early, o.status(), o.log));
             }
         }
